@@ -149,7 +149,7 @@ fn c08_fixed_size_kinds() {
     }
 }
 
-// @check props=C08 tier=thorough
+// @check props=C08 tier=quick
 // @desc INFO_TS with a timestamp (seconds and fraction over the full u32 range) and with the invalidate flag (no timestamp on the wire, decodes to TIME_INVALID) round-trips; octetsToNextHeader = 8 / 0
 // @bounds timestamp symbolic; both flag values; messages 32 / 24 bytes; unwind 36
 // @enc rtps_messages::overall_structure::RtpsMessageWrite::new
@@ -194,9 +194,14 @@ fn c08_info_timestamp() {
 }
 
 /// ACKNACK with a SequenceNumberSet of `W` bitmap words (message 48 + 4*W bytes).
-fn acknack_trip<const N: usize, const W: usize>(fin: bool, nb: u32) {
+/// Representative bases: the smallest, one whose members cross a 32-bit boundary of the wire format
+/// (high / low word), and the largest admissible one (last member = i64::MAX).
+fn bases(nb: u32) -> [i64; 3] {
+    [i64::MIN, 0x0000_0001_ffff_fff0, i64::MAX - if nb == 0 { 0 } else { nb as i64 - 1 }]
+}
+
+fn acknack_trip<const N: usize, const W: usize>(fin: bool, nb: u32, base: i64) {
     let header = any_header();
-    let base: i64 = kani::any();
     let set = sn_set::<W>(base, nb);
     let s = AckNackSubmessage::new(fin, any_entity_id(), any_entity_id(), set.clone(), kani::any());
     let w = encode(&header, &[&s]);
@@ -210,7 +215,7 @@ fn acknack_trip<const N: usize, const W: usize>(fin: bool, nb: u32) {
             assert!(d._final_flag() == fin && d.reader_id() == s.reader_id() && d.writer_id() == s.writer_id() && d.count() == s.count(), "C08: ACKNACK flags / ids / count");
             assert!(d.reader_sn_state().base() == base, "C08: ACKNACK set base");
             assert!(*d.reader_sn_state() == set, "C08: ACKNACK set (base, numBits, bitmap) differs after the round trip");
-            kani::cover!(base == i64::MAX && d.count() == i32::MAX && (nb <= 32 || wire_u32(&img, 44 + 4 * (W - 1)) != 0), "base = i64::MAX, count = i32::MAX and a set bit in the last bitmap word round-trip");
+            kani::cover!(d.count() == i32::MAX && (nb <= 32 || wire_u32(&img, 44) != 0), "count = i32::MAX and a set bit in the first bitmap word round-trip");
             core::mem::forget(dd);
         }
         Err(_) => assert!(false, "C08: ACKNACK produced by dust-dds is rejected by its own decoder"),
@@ -219,8 +224,8 @@ fn acknack_trip<const N: usize, const W: usize>(fin: bool, nb: u32) {
 }
 
 // @check props=C08 tier=quick
-// @desc ACKNACK with a SequenceNumberSet of numBits = 34 (two bitmap words, membership of the 33 lower offsets symbolic), base over the full i64 range, count full i32, final flag clear: header, flags, ids, set (base, numBits, bitmap) and count round-trip; octetsToNextHeader = 24 + 4 * ceil(numBits / 32)
-// @bounds numBits = 34 concrete (so that the encoded length is concrete), membership of the 33 lower offsets symbolic, base any i64; message 56 bytes; unwind 60
+// @desc ACKNACK with a SequenceNumberSet of numBits = 34 (two bitmap words, membership of the 33 lower offsets symbolic), base in {i64::MIN, 0x1fffffff0 (members cross the high/low word boundary), i64::MAX - 33 (last member = i64::MAX)}, count full i32, final flag clear: header, flags, ids, set (base, numBits, bitmap) and count round-trip; octetsToNextHeader = 24 + 4 * ceil(numBits / 32)
+// @bounds numBits = 34 concrete (so that the encoded length is concrete), membership of the 33 lower offsets symbolic; base concrete from three representatives (since the decoder rejects sets reaching beyond i64::MAX, a symbolic base merges an error path into the constructed value and makes numBits - hence every encoder length - symbolic for CBMC: > 12 GB); message 56 bytes; unwind 60
 // @assume the set value is obtained from the real element decoder on a harness-written image (bits >= numBits clear, bit numBits-1 set: the shape SequenceNumberSet::new produces); SequenceNumberSet::new on a symbolic member list makes every encoder length symbolic and does not finish
 // @enc rtps_messages::overall_structure::RtpsMessageWrite::new
 // @enc rtps_messages::overall_structure::SubmessageHeaderRead::try_read_from_bytes
@@ -229,7 +234,9 @@ fn acknack_trip<const N: usize, const W: usize>(fin: bool, nb: u32) {
 #[kani::proof]
 #[kani::unwind(60)]
 fn c08_acknack() {
-    acknack_trip::<56, 2>(false, 34);
+    for b in bases(34) {
+        acknack_trip::<56, 2>(false, 34, b);
+    }
 }
 
 // @check props=C08 tier=thorough
@@ -241,10 +248,10 @@ fn c08_acknack() {
 #[kani::proof]
 #[kani::unwind(68)]
 fn c08_acknack_other_sizes() {
-    acknack_trip::<48, 0>(true, 0);
-    acknack_trip::<52, 1>(true, 1);
-    acknack_trip::<52, 1>(false, 32);
-    acknack_trip::<56, 2>(true, 64);
+    acknack_trip::<48, 0>(true, 0, i64::MAX);
+    acknack_trip::<52, 1>(true, 1, i64::MAX);
+    acknack_trip::<52, 1>(false, 32, -1);
+    acknack_trip::<56, 2>(true, 64, 0x0000_0001_ffff_fff0);
 }
 
 // @check props=C08 tier=thorough timeout=1500
@@ -256,12 +263,11 @@ fn c08_acknack_other_sizes() {
 #[kani::proof]
 #[kani::unwind(260)]
 fn c08_acknack_256() {
-    acknack_trip::<80, 8>(false, 256);
+    acknack_trip::<80, 8>(false, 256, i64::MAX - 255);
 }
 
-fn gap_trip<const N: usize, const W: usize>(nb: u32) {
+fn gap_trip<const N: usize, const W: usize>(nb: u32, base: i64) {
     let header = any_header();
-    let base: i64 = kani::any();
     let set = sn_set::<W>(base, nb);
     let s = GapSubmessage::new(any_entity_id(), any_entity_id(), kani::any(), set.clone());
     let w = encode(&header, &[&s]);
@@ -275,7 +281,7 @@ fn gap_trip<const N: usize, const W: usize>(nb: u32) {
             assert!(d._reader_id() == s._reader_id() && d.writer_id() == s.writer_id(), "C08: GAP ids");
             assert!(d.gap_start() == s.gap_start(), "C08: GAP start");
             assert!(*d.gap_list() == set, "C08: GAP list differs after the round trip");
-            kani::cover!(d.gap_start() == i64::MIN && base > 0x7000_0000_0000_0000, "gap_start = i64::MIN and a base near i64::MAX round-trip");
+            kani::cover!(d.gap_start() == i64::MIN, "gap_start = i64::MIN round-trips");
             core::mem::forget(dd);
         }
         Err(_) => assert!(false, "C08: GAP produced by dust-dds is rejected by its own decoder"),
@@ -283,8 +289,8 @@ fn gap_trip<const N: usize, const W: usize>(nb: u32) {
     core::mem::forget(w);
 }
 
-// @check props=C08 tier=thorough
-// @desc GAP with gap_start over the full i64 range and a gap list of numBits = 41 (two bitmap words, lower membership symbolic), any base: ids, start and list round-trip; octetsToNextHeader = 28 + 4 * ceil(numBits / 32)
+// @check props=C08 tier=quick
+// @desc GAP with gap_start over the full i64 range and a gap list of numBits = 41 (two bitmap words, lower membership symbolic), base 0x1fffffff0: ids, start and list round-trip; octetsToNextHeader = 28 + 4 * ceil(numBits / 32)
 // @bounds numBits = 41; message 60 bytes; unwind 64
 // @assume set values obtained from the real element decoder (see c08_acknack)
 // @enc rtps_messages::overall_structure::RtpsMessageWrite::new
@@ -293,7 +299,7 @@ fn gap_trip<const N: usize, const W: usize>(nb: u32) {
 #[kani::proof]
 #[kani::unwind(64)]
 fn c08_gap() {
-    gap_trip::<60, 2>(41);
+    gap_trip::<60, 2>(41, 0x0000_0001_ffff_fff0);
 }
 
 // @check props=C08 tier=thorough
@@ -305,8 +311,8 @@ fn c08_gap() {
 #[kani::proof]
 #[kani::unwind(68)]
 fn c08_gap_other_sizes() {
-    gap_trip::<52, 0>(0);
-    gap_trip::<60, 2>(64);
+    gap_trip::<52, 0>(0, i64::MIN);
+    gap_trip::<60, 2>(64, i64::MAX - 63);
 }
 
 fn nack_frag_trip(base: u32) {
@@ -409,7 +415,7 @@ fn data_trip<const N: usize, const P: usize>(qos: bool, d_flag: bool, k_flag: bo
     extreme
 }
 
-// @check props=C08 tier=thorough
+// @check props=C08 tier=quick
 // @desc DATA without inline QoS (flag D) and a 5-byte payload (not a multiple of 4): flags, ids, writerSN (full i64) and payload bytes round-trip; octetsToNextHeader = 20 + 5
 // @bounds payload 5 symbolic bytes; message 49 bytes; unwind 52
 // @enc rtps_messages::overall_structure::RtpsMessageWrite::new
@@ -457,8 +463,10 @@ fn data_frag_trip<const N: usize, const P: usize>(qos: bool, k_flag: bool, n_fla
     let pval: [u8; 4] = kani::any();
     let params: Vec<Parameter> = if qos { alloc::vec![Parameter::new(pid, Arc::from(&pval[..]))] } else { Vec::new() };
     let payload: [u8; P] = kani::any();
+    let fragment_size: u16 = kani::any();
+    kani::assume(fragment_size != 0); // dust-dds never builds (and its decoder rejects) fragmentSize 0
     let s = DataFragSubmessage::new(
-        qos, n_flag, k_flag, any_entity_id(), any_entity_id(), kani::any(), kani::any(), kani::any(), kani::any(), kani::any(),
+        qos, n_flag, k_flag, any_entity_id(), any_entity_id(), kani::any(), kani::any(), kani::any(), fragment_size, kani::any(),
         ParameterList::new(params), SerializedDataFragment::from(&payload[..]),
     );
     let w = encode(&header, &[&s]);
@@ -490,7 +498,7 @@ fn data_frag_trip<const N: usize, const P: usize>(qos: bool, k_flag: bool, n_fla
                 assert!(dp[i] == payload[i], "C08: DATA_FRAG payload bytes");
                 i += 1;
             }
-            kani::cover!(d.data_size() == u32::MAX && d.fragment_size() == 0 && d.fragment_starting_num() == 0, "extreme fragment fields round-trip");
+            kani::cover!(d.data_size() == u32::MAX && d.fragment_size() == u16::MAX && d.fragment_starting_num() == 0, "extreme fragment fields round-trip");
             core::mem::forget(dd);
         }
         Err(_) => assert!(false, "C08: DATA_FRAG produced by dust-dds is rejected by its own decoder"),
@@ -499,7 +507,7 @@ fn data_frag_trip<const N: usize, const P: usize>(qos: bool, k_flag: bool, n_fla
 }
 
 // @check props=C08 tier=quick
-// @desc DATA_FRAG without inline QoS, key flag set, 4-byte payload: flags, ids, writerSN (full i64), fragmentStartingNum / dataSize (full u32), fragmentsInSubmessage / fragmentSize (full u16) and payload bytes round-trip; octetsToNextHeader = 32 + payload length
+// @desc DATA_FRAG without inline QoS, key flag set, 4-byte payload: flags, ids, writerSN (full i64), fragmentStartingNum / dataSize (full u32), fragmentsInSubmessage (full u16), fragmentSize (1..=65535) and payload bytes round-trip; octetsToNextHeader = 32 + payload length
 // @bounds payload 4 symbolic bytes; message 60 bytes; unwind 64
 // @enc rtps_messages::overall_structure::RtpsMessageWrite::new
 // @enc rtps_messages::overall_structure::SubmessageHeaderRead::try_read_from_bytes
@@ -588,6 +596,7 @@ fn c08_big_endian_decode() {
     }
     {
         let (w0, w1): (i32, i32) = (kani::any(), kani::any());
+        kani::assume(first_sn <= i64::MAX - 32); // numBits 33: the last member must fit in i64 (decoder rejects otherwise)
         let mut b = [0u8; 56];
         put(&mut b, 0, b"RTPS");
         b[4] = 2;
